@@ -45,12 +45,24 @@ Theorem C05_terminates : forall wl rc s pre, exists post, is_terminal wl rc (run
 Proof. exact Proofs.WaitCond.terminates. Qed.
 Print Assumptions C05_terminates.
 
+(* every schedule makes at most mu(s) moves (a number that depends on the start state only): parking for ever while a wake-up
+   is due is impossible, the terminal states above cannot be avoided *)
+Theorem C05_every_schedule_bounded : forall wl rc sched s, moves wl rc s sched <= Proofs.WaitCond.mu s.
+Proof. exact Proofs.WaitCond.moves_bounded. Qed.
+Print Assumptions C05_every_schedule_bounded.
+
 (* sensitivity: without the watcher taking the lock, or without the context re-check in the loop, the wake-up CAN be lost *)
 Theorem C05_needs_lock_refuted :
   exists sched, let s := run false true (init 0 false CtxCancellable) sched in
   is_terminal false true s = true /\ cancelled s = true /\ returned s = false /\ w s = WParked.
 Proof. exact Proofs.WaitCond.needs_lock_refuted. Qed.
 Print Assumptions C05_needs_lock_refuted.
+Theorem C05_needs_recheck_refuted :
+  exists sched, let s := run true false (init 0 false CtxCancellable) sched in
+    is_terminal true false s = true /\ cancelled s = true /\ pred s = false /\ returned s = false /\
+    w s = WParked /\ watcher_done s = true.
+Proof. exact Proofs.WaitCond.needs_recheck_refuted. Qed.
+Print Assumptions C05_needs_recheck_refuted.
 End WaitCondClauses.
 
 Section BufferClause.
